@@ -2386,29 +2386,18 @@ class RawAlgorithmsMixIn:
     def _diag(cls, v_data, k = 0, out = None):
         """Extract a diagonal or construct  diagonal UTPM data"""
 
-        if numpy.ndim(v_data) == 3:
-            D,P,N = v_data.shape
-            if out is None:
-                out = numpy.zeros((D,P,N,N),dtype=v_data.dtype)
-            else:
-                out[...] = 0.
-
-            for d in range(D):
-                for p in range(P):
-                    out[d,p] = numpy.diag(v_data[d,p])
-
-            return out
-
+        D,P = v_data.shape[:2]
+        if out is None:
+            # numpy.diag defines the shape of the result (it depends on k and, for a matrix, on both of its sides)
+            out = numpy.zeros((D,P) + numpy.diag(v_data[0,0], k).shape, dtype=v_data.dtype)
         else:
-            D,P,M,N = v_data.shape
-            if out is None:
-                out = numpy.zeros((D,P,N),dtype=v_data.dtype)
+            out[...] = 0.
 
-            for d in range(D):
-                for p in range(P):
-                    out[d,p] = numpy.diag(v_data[d,p])
+        for d in range(D):
+            for p in range(P):
+                out[d,p] = numpy.diag(v_data[d,p], k)
 
-            return out
+        return out
 
     @classmethod
     def _diag_pullback(cls, ybar_data, x_data, y_data, k = 0, out = None):
